@@ -381,3 +381,25 @@ Example ex_wire_malformed :
   parse_array32 [x00; x01] = None /\
   parse_array32 [x08; x04; x38; x2a] = Some (mkWArray 4 [] [] [] 0 0 None [x38; x2a]).
 Proof. vm_compute. repeat split. Qed.
+
+From SlimGen Require Gen_Consts.
+From Coq Require Import String.
+
+(* ---- the protobuf schema the wire model was written for ----------------------------------
+   Gen_Consts.g_proto_fields is REGENERATED on every run from the struct tags of the generated
+   *.pb.go files in /repo (message, field, number, Go type, wire kind / repeated / packed):
+   a renumbered, retyped, added or removed field of array.Array32 / Bits breaks this obligation. *)
+Example C16_schema :
+  filter (fun r => String.prefix "array."%string (fst (fst (fst r)))) SlimGen.Gen_Consts.g_proto_fields =
+  [("array.Array32"%string, "Cnt"%string, 1, "int32 varint,1,opt,proto3"%string);
+   ("array.Array32"%string, "Bitmaps"%string, 2, "[]uint64 varint,2,rep,packed,proto3"%string);
+   ("array.Array32"%string, "Offsets"%string, 3, "[]int32 varint,3,rep,packed,proto3"%string);
+   ("array.Array32"%string, "Elts"%string, 4, "[]byte bytes,4,opt,proto3"%string);
+   ("array.Array32"%string, "Flags"%string, 10, "uint32 varint,10,opt,proto3"%string);
+   ("array.Array32"%string, "EltWidth"%string, 20, "int32 varint,20,opt,proto3"%string);
+   ("array.Array32"%string, "BMElts"%string, 30, "*Bits bytes,30,opt,proto3"%string);
+   ("array.Bits"%string, "Flags"%string, 1, "uint32 varint,1,opt,proto3"%string);
+   ("array.Bits"%string, "N"%string, 10, "int32 varint,10,opt,proto3"%string);
+   ("array.Bits"%string, "Words"%string, 20, "[]uint64 varint,20,rep,packed,proto3"%string);
+   ("array.Bits"%string, "RankIndex"%string, 30, "[]int32 varint,30,rep,packed,proto3"%string)]%N.
+Proof. vm_compute. reflexivity. Qed.
